@@ -116,7 +116,45 @@ def check_availability(prog, report):
     return ok_rules
 
 
+def check_single_binding(prog, report):
+    """In the three seminorm routines the interval end points and the length
+    h = b - a are bound once: a conditional rebinding (an exchange of the end
+    points, a sign flip of h) changes what the prefactor h**p and the affine
+    map mean on part of the inputs."""
+    for q in ('Slobodeckij.seminorm_h_1_4', 'Slobodeckij.seminorm_h_1_2',
+              'Slobodeckij.seminorm_h_1_2_pw'):
+        fi = prog.func(N, q)
+        fixed = set(fi.params) - {'self'}
+        fixed |= {'h', 'h_1', 'h_2'}
+        seen = set()
+        bad = []
+        for st in ast.walk(fi.node):
+            if isinstance(st, (ast.FunctionDef, ast.Lambda)) and \
+                    st is not fi.node:
+                continue
+            tg = []
+            if isinstance(st, ast.Assign):
+                tg = st.targets
+            elif isinstance(st, (ast.AugAssign, ast.AnnAssign)):
+                tg = [st.target]
+            for t in tg:
+                for m in ast.walk(t):
+                    if isinstance(m, ast.Name) and m.id in fixed:
+                        if m.id in fi.params or m.id in seen:
+                            bad.append((st, m.id))
+                        seen.add(m.id)
+        report.check(
+            not bad, 'R-singular-measure', q.split('.')[-1] +
+            ' binds its interval once',
+            fi.where(bad[0][0]) if bad else fi.where(),
+            'end points and length are never rebound%s' % (
+                (': `%s` rebinds %s' % (text(bad[0][0])[:40], bad[0][1]))
+                if bad else ''),
+            construct=q.split('.')[-1] + ': interval rebound')
+
+
 def check_singular_measure(prog, report):
+    check_single_binding(prog, report)
     fi, attrs, bases, calls = init_env(prog)
     u, v = U[0], U[1]
     h = sp.Symbol('h', positive=True)
